@@ -85,6 +85,15 @@ class C07(E1Check):
                                         # the same with start_component() called in a context nested in two others
                                         progs.append({"kind": "fault", "shape": shape, "absent": absent, "timeout": timeout, "nested": True,
                                                       "fault": {"path": p, "phase": phase, "pos": pos, "cls": "E", "handshake": False}})
+            ps_ = paths(SHAPES[shape])
+            leaves_ = [p for p, nd in ps_ if not nd.get("children") and p != ""]
+            if len(leaves_) >= 2:
+                for extra in ("in-factory", "svc-none"):
+                    for pos in ("before", "after"):
+                        # the last leaf fails while the first leaf is suspended inside an async resource factory / after the first leaf
+                        # started a self-ending service task (teardown_action=None) behind a resource teardown
+                        progs.append({"kind": "fault", "shape": shape, "absent": "", "timeout": 5, "extra": extra,
+                                      "fault": {"path": leaves_[-1], "phase": "start", "pos": pos, "cls": "E", "handshake": False}})
             for absent in ("", "noprep"):
                 progs.append({"kind": "timeout", "shape": shape, "absent": absent, "timeout": 5})
             if len(paths(SHAPES[shape])) >= 3:
@@ -118,6 +127,14 @@ class C07(E1Check):
             for p, nd in ps[1:]:
                 if not nd.get("children"):
                     nd["start"].insert(1, ("get", "RA", "shared", "shortcut", False, f"{p}:start"))
+        if program.get("extra"):
+            ps = paths(spec)
+            first_leaf = next((p, nd) for p, nd in ps if not nd.get("children") and p != "" and p != program["fault"]["path"])
+            if program["extra"] == "in-factory":
+                ps[0][1]["prepare"].insert(1, ("addf", "RA", "slowf", "slowf", "agated"))
+                first_leaf[1]["start"].insert(1, ("get", "RA", "slowf", "shortcut", False, f"{first_leaf[0]}:start"))
+            else:
+                first_leaf[1]["start"].insert(1, ("svc-none", f"sn:{first_leaf[0]}"))
         tree = Tree(env, spec)
         env.data["tree"] = tree
         env.data["spec"] = spec
@@ -152,6 +169,12 @@ class C07(E1Check):
             except BaseException as e:  # noqa: BLE001
                 st["exc"] = e
                 env.log("raised", type(e).__name__)
+            if program.get("extra") == "in-factory":
+                # the factory was registered before the failure and stays usable: a lookup made now completes
+                from ..comptree import RA, lab
+
+                r = await ctx.get_resource(RA, "slowf")
+                env.log("post-lookup", lab(r))
             # give anything that is still alive the chance to show itself
             await env.gate("after")
             env.log("leaving")
@@ -255,6 +278,19 @@ class C07(E1Check):
                         open_ph.discard((ev[1], ev[2]))
                 if open_ph:
                     fail("still-running", f"phases {sorted(open_ph)} were neither finished nor stopped when TimeoutError was raised")
+        if program.get("extra") == "svc-none":
+            for ev in tr:
+                if ev[0] == "svc-started":
+                    lbl = ev[1]
+                    pth = lbl.split(":", 1)[1]
+                    se = next((i for i, e2 in enumerate(tr) if e2[0] == "svc-" and e2[1] == lbl), None)
+                    t0 = next((i for i, e2 in enumerate(tr) if e2 == ("td", f"td:{pth}:start")), None)
+                    if se is None or t0 is None or t0 < se:
+                        fail("ownership", f"teardown callback td:{pth}:start (registered before service task {lbl} was started) ran at {t0}, the task ended at {se}")
+                    if any(e2[0] == "svc!" and e2[1] == lbl for e2 in tr):
+                        fail("ownership", f"service task {lbl} (teardown_action=None) was cancelled instead of awaited")
+        if program.get("extra") == "in-factory" and not any(ev[0] == "post-lookup" and str(ev[1]).startswith("slowf#") for ev in tr):
+            fail("ownership", f"a lookup of the factory registered before the failure gave {[ev for ev in tr if ev[0] == 'post-lookup']}")
         if program.get("nested") and ("ctx-left",) in tr:
             ci = tr.index(("ctx-left",))
             late_td = [ev for ev in tr[ci + 1:] if ev[0] == "td"]
